@@ -248,7 +248,7 @@ EXTRA = {
     'C16': 'Also: in WHFast every Jacobi<->inertial conversion of the real particles stands next to the same conversion of every variational configuration where the statement list has one (R16.6); '
            'automatic rescaling divides every per-coordinate array the IAS15 allocator sizes by the same scale (R16.7); members of a variational configuration that only the second-order '
            'constructor fills are read under a test of the same configuration\'s order (R16.8); boundary conditions never touch variational particles (R15.8). The first-order variational pair kernels of reb_calculate_acceleration_var are the directional derivative of the Newtonian pair acceleration, mass variation included (R16.9); no parameter of Variation\'s Python methods is ignored (R16.10). The acc variant of every transformation is the pos variant\'s map (R12.1); moving to the centre of mass uses totals from completed loops, also when the loop body names sub-expressions (R20.7).',
-    'C17': 'Also: descriptor rows designate the member they name (R05.2) and the archive heartbeat advances the deadline before it writes (R06.5), so a stored snapshot equals the live state. R06.8 (the index holds every snapshot) and the operand discipline of reb_particle_diff (R17.5). Coordinate transformations never store whole particles (with their memory addresses) into persisted caches (R17.7); unpersisted warning latches do not steer a copy differently from its source (R17.8); R06.9.',
+    'C17': 'Also: descriptor rows designate the member they name (R05.2) and the archive heartbeat advances the deadline before it writes (R06.5), so a stored snapshot equals the live state. R06.8 (the index holds every snapshot) and the operand discipline of reb_particle_diff (R17.5). Coordinate transformations never store whole particles (with their memory addresses) into persisted caches (R17.7); unpersisted warning latches do not steer a copy differently from its source (R17.8); R06.9. reb_particle_diff lets the both-NaN case through for every floating-point member it compares, so the comparison is reflexive (R17.9).',
     'C18': 'Also: no parameter of a function of the Python layer is ignored or overwritten on every path before its first read (R18.8, 10 frozen exceptions); the shortcut names of Simulation.integrator, in if-chain or table form, leave pairwise different configurations (R18.9). Option tables computed at import time are folded before comparison with the C enum.',
     'C12': 'Also: transformation calls selected by a coordinate-system constant belong to one system per constant at every site (R12.6).',
     'C19': 'Also: the one capacity counter the serialiser lowers is lowered to a size the owner\'s growth test itself asks for (R19.4). The owner of a capacity the serialiser trims tests it with capacity < need only, the one test whose outcome is the same before and after trimming (R19.4). A descriptor handed to fdopen is closed once, through its stream: no close() of a descriptor whose stream was fclose()d (R19.6). A file-scope object assigned different values at different sites counts as shared state (R19.1); switches over r->status handle the statuses a client can set (R01.1).',
